@@ -26,6 +26,7 @@ func init() {
 			{ID: "R04b", Floor: 14, Doc: "typestate: index/writer/backing uses behind the not-closed (and not-finalized for writes) outcome", Run: ruleR04b},
 			{ID: "R04c", Floor: 4, Doc: "finalizers leave the store closed on every return", Run: ruleR04c},
 			{ID: "R04d", Floor: 6, Doc: "identity short-circuit only behind !StoreIdentityCIDs in Has/Get/GetStream/ShouldPut/store.Has", Run: ruleR04d},
+			{ID: "R04f", Floor: 3, Doc: "lookups answer only for a confirmed candidate and report not-found otherwise (= R07a)", Run: ruleR07a},
 			{ID: "R04e", Floor: 3, Doc: "oversize CID: ShouldPut's non-false answers behind cidLen <= max; put paths write only behind err==nil && should", Run: ruleR04e},
 		},
 	})
